@@ -386,8 +386,8 @@ CHECKS["C20"] = {
     "technique": "explicit-state search over setter histories + exhaustive fault-position enumeration over trees, real code with a link-time allocation ledger (leaks), ASan (double free / use after free) and a MemorySanitizer build (uninitialised reads)",
     "level_text": "(a) every state reachable by <= d setter calls from 8 start states is built, queried through every getter (succeeding and failing), written, merged "
                   "and released: the allocation ledger (all allocating libc entry points of the library wrapped at link time) must be empty; (b) every small "
-                  "tree x four read entry points (with and without callback) x every consulted-file position x fault kind {callback rejects, foreign owner, "
-                  "malformed line, file vanishes between check and open, dangling symlink, unknown option item} (thorough: all pairs of positions): out-pointers "
+                  "tree x four read entry points (with and without callback) x every consulted-file position x fault kind {callback rejects, foreign owner, foreign group, "
+                  "symlink while symlinks are refused, file mode refused, directory mode refused, malformed line, file vanishes between check and open, dangling symlink, unknown option item} (thorough: all pairs of positions): out-pointers "
                   "NULL/untouched/valid, ledger empty after releasing the valid handles; (c) the same two sweeps under clang MemorySanitizer with every returned "
                   "field checked for initialisation; (d) the free functions accept NULL and return NULL",
     "level_note": "bounded: depth 4, 3 names, single faults (quick); depth 5, 3 names, pairs of faults (thorough); MSan build one level shallower; allocation failure is not injected; a block obtained through an "
